@@ -67,6 +67,8 @@ def signature(recs, at, v):
     """Narrow description of a rejection: which event, and for a panic what the CP was handed."""
     ev = recs[min(at, len(recs)) - 1] if recs else {}
     sig = {}
+    if v['violated'] and at >= 2:
+        sig['caused_by'] = recs[at - 2].get('e')      # an invariant breaks in the state *after* the offending event
     if ev.get('e') == 'Panic':
         kof = kernel_of_map(recs[:at])
         consumed = {r['mid'] for r in recs[:at] if r['e'] == 'Consume'}
@@ -232,6 +234,29 @@ def corruptions():
             ('more_wavefronts_than_slots', extra_slot), ('wrong_pid', wrong_pid)]
 
 
+HOOK_FILE = 'amd/timing/cp/verif_export.go'
+
+
+def build_with_hook(ctx):
+    """A second driver binary (tag c09hook) that swaps the dispatchers' placement algorithm; only possible
+    when the verif hook is in /repo (or in the VERIF_OVERLAY)."""
+    ov = os.environ.get('VERIF_OVERLAY')
+    have = os.path.exists(os.path.join(vlib.REPO, HOOK_FILE))
+    if not have and ov:
+        have = bool(json.load(open(ov)).get('Replace', {}).get(os.path.join(vlib.REPO, HOOK_FILE)))
+    if not have:
+        return None
+    out = os.path.join(ctx.sub('bin'), 'c09_hook')
+    argv = ['go', 'build', '-tags', 'verif c09hook', '-o', out]
+    if ov:
+        argv += ['-overlay', ov]
+    argv.append('./cmd/c09')
+    p = ctx.run(argv, cwd=vlib.HARNESS, env=vlib.go_env(), timeout=1500, check=False)
+    if p.returncode != 0:
+        raise vlib.Infra('go build c09 (hook) failed:\n%s' % p.stdout[-4000:])
+    return out
+
+
 def drive(ctx, drv, args, out):
     p, stats = common.run_driver(ctx, drv, args + ['-out', out])
     if stats is None:
@@ -247,9 +272,13 @@ def run(ctx, selftest=False):
     # 1. design-level model checking
     nomc = bool(os.environ.get('VERIF_C09_NOMC'))      # development aid (mutant loops): the model does not depend on /repo
     if not nomc:
-        r = ctx.tlc_expect_ok(D, 'MC_Dispatch.tla', 'MC_Dispatch_quick.cfg', coverage=True, timeout=900)
+        # (-coverage doubles the run time: the vacuity reading is taken in the thorough tier, on the larger model)
+        r = ctx.tlc_expect_ok(D, 'MC_Dispatch.tla', 'MC_Dispatch_quick.cfg', coverage=thorough, timeout=900)
         ctx.log('MC_Dispatch_quick (intended design, cross-kernel batches): %d distinct states, depth %d' % (r.distinct, r.depth))
-        ctx.cov['coverage_zero_actions'] = r.coverage_zero()
+        if thorough:
+            ctx.cov['coverage_zero_actions'] = r.coverage_zero()
+            if ctx.cov['coverage_zero_actions']:
+                raise vlib.Infra('actions never taken in MC_Dispatch_quick: %s' % ctx.cov['coverage_zero_actions'])
         r = ctx.tlc_expect_ok(D, 'MC_Dispatch.tla', 'MC_Dispatch_live.cfg', timeout=900)
         ctx.log('MC_Dispatch_live (EveryKernelCompletes under fair CUs/driver): %d distinct states' % r.distinct)
     if thorough and not nomc:
@@ -311,6 +340,18 @@ def run(ctx, selftest=False):
     ctx.log('real emulation CUs: %s' % st4)
     parts += validate(ctx, t4, {'cmd': 'c09', 'args': args4})
 
+    # 5b. greedy / partition placement (only with the verif hook fixes/C09-hook-dispatch-alg.diff in the tree)
+    st5 = {}
+    drvh = build_with_hook(ctx)
+    if drvh:
+        t5 = os.path.join(ctx.scratch, 'trace_alg.ndjson')
+        args5 = ['-random', 600 if thorough else 60, '-launches', 6, '-seed', ctx.seed + 2000, '-alg', 'greedy,partition']
+        st5 = drive(ctx, drvh, args5, t5)
+        ctx.log('greedy and partition placement (verif hook): %s' % st5)
+        parts += validate(ctx, t5, {'cmd': 'c09', 'hook': True, 'args': args5})
+    else:
+        ctx.notes.append('greedy/partition placement not exercised: amd/timing/cp/verif_export.go (fixes/C09-hook-dispatch-alg.diff) is not in the tree')
+
     distinct = {json.dumps([{k: v for k, v in r.items() if k != 'seq'} for r in recs], sort_keys=True) for _, recs in parts}
     nt = sum(1 for _, recs in parts if nontrivial(recs))
     ctx.sample({'trace_excerpt': parts[len(behs) + 2][1][:12] if len(parts) > len(behs) + 2 else parts[-1][1][:12]})
@@ -322,8 +363,18 @@ def run(ctx, selftest=False):
                     'model_lead': {'violated': lead.violated, 'length': len(ce),
                                    'real_cp_panicked': st0.get('ev_Panic', 0) > 0}})
 
-    # 6. binding self-test
-    common.selftest_binding(ctx, TSPEC, t2, corruptions())
+    # a run the driver had to cut off (the CP never went idle) whose recorded prefix was nevertheless accepted
+    # is not a verdict
+    cut = sum(s.get('incomplete', 0) for s in (st0, st1, st2, st3, st4, st5))
+    if cut and not ctx.violations:
+        raise vlib.Infra('%d runs were cut off by the driver (CP never idle) without a rejected trace' % cut)
+
+    # 6. binding self-test (needs an accepted trace; pointless once real violations were found)
+    if not ctx.violations:
+        cs = corruptions()
+        if not thorough:            # five of the eight per run, rotating with the seed
+            cs = [cs[(ctx.seed + i) % len(cs)] for i in range(5)]
+        common.selftest_binding(ctx, TSPEC, t2, cs)
     ctx.assumptions += [
         'akitabench mini engine and fake connection stand in for akita SerialEngine/DirectConnection',
         'port hooks observe every message of the CP (akita v4.9.0 defaultPort)',
@@ -338,6 +389,10 @@ def replay(ctx, path):
     rp = json.load(open(path))['replay']
     drv = ctx.go_build('c09')
     d = rp['driver']
+    if d.get('hook'):
+        drv = build_with_hook(ctx)
+        if not drv:
+            raise vlib.Infra('this replay needs the verif hook ' + HOOK_FILE)
     t = os.path.join(ctx.scratch, 'replay.ndjson')
     if 'scenarios' in d:
         sfile = os.path.join(ctx.scratch, 'scen.json')
